@@ -290,6 +290,29 @@ def main():
                     fail("integration-with-events-raised", error=repr(e)[:200], scale=s_, kind=kind, span=list(span))
                     continue
                 check_run(a, evs, span, dict(method="RK45CK", span=list(span), dense=False, scale=s_, kind=kind, family="long"), 1e-6, False, True)
+    # (a-large-t) the same oscillator started at |t0| = 1e8, 1e9: the step (0.05) times eps**0.5 is below the spacing of doubles there; crossings
+    # must still be reported, terminal ones must still stop the run (defect F34: the samples that classify a crossing collapsed onto the root)
+    if "C08" in props or "C09" in props:
+        for t0_ in (1e8, -1e9):
+            for terminal in (False, True):
+                def g_(t, y, **kw):
+                    return y[0] - 0.5
+                g_.is_terminal = terminal
+                a = de.OdeSystem(rhs, y0=np.array([1.0, 0.0]), t=(t0_, t0_ + 10.0), dt=0.05, rtol=1e-9, atol=1e-9)
+                a.method = "RK45CK"
+                cases[0] += 1
+                try:
+                    a.integrate(events=[g_])
+                except Exception as e:
+                    fail("integration-with-events-raised", error=repr(e)[:200], t0=t0_, family="large-t")
+                    continue
+                gv = np.asarray(a.y)[:, 0] - 0.5
+                changes = int(np.sum(gv[:-1] * gv[1:] < 0))
+                if terminal:
+                    if a.integration_status != "Integration terminated upon finding a triggered event." or len(a.events) != 1:
+                        fail("terminal-event-missed-at-large-t", t0=t0_, status=a.integration_status, n_events=len(a.events))
+                elif len(a.events) < changes or changes < 2:
+                    fail("crossing-missed-at-large-t", t0=t0_, n_events=len(a.events), sign_changes_between_recorded_steps=changes)
     # (a'') sub-divided steps: a Richardson-extrapolated integrator adds one interpolant per sub-step; a terminal stop (roll-back of the
     # step) must leave a dense output that is ordered, ends at the event and reproduces the recorded states (defect F30, repaired)
     if "C09" in props or "C07" in props:
